@@ -14,10 +14,17 @@ KNOWN_DATA_KEYS = {'.NAME', '.NS', 'EBLIF.type', 'EBLIF.cname', 'EBLIF.attr', 'E
 
 # ----------------------------------------------------------------------------- tokenising
 def raw_stream(text):
-    """what Tokenizer.generate_tokens yields: the words of every line, then a newline token"""
+    """what Tokenizer.generate_tokens yields: the words of every line up to a trailing comment, then a
+    newline token (checked against the real tokenizer on every case: tokenisation_agrees)"""
     out = []
     for line in io.StringIO(text):
-        out += line.split()
+        words = line.split()
+        if words and words[0].startswith('#') and words[0] != '#':
+            words[0:1] = ['#', words[0][1:]]          # "#text" at the start of a line is the comment "# text"
+        for k, w in enumerate(words):
+            if k > 0 and w.startswith('#') and words[0] != '#':
+                break                                 # a word starting with "#" ends a statement line
+            out.append(w)
         out.append('\n')
     return out
 
